@@ -195,6 +195,12 @@ class SqliteStateStore(Generic[MODEL_T]):
 
     async def set_state(self, state: MODEL_T) -> None:
         """Replace or merge into the current state model."""
+        # Same lock as edit_state(): a replace must not land between the load
+        # and the write-back of an edit block and then be overwritten by it.
+        async with self._lock:
+            self._set_state_locked(state)
+
+    def _set_state_locked(self, state: MODEL_T) -> None:
         conn = self._connect()
         try:
             cursor = conn.cursor()
